@@ -82,7 +82,7 @@ def _terms_of(e0):
     return by_sort
 
 
-def _index_terms(exprs, sort, cap=60):
+def _index_terms(exprs, sort, cap=150):
     """Ground terms of `sort` that occur as index of a select/store (or as
     argument of an uninterpreted function) in exprs."""
     sid = sort.get_id()
@@ -98,7 +98,7 @@ def _index_terms(exprs, sort, cap=60):
     return out
 
 
-def instantiate(qhyps, base, rounds=2):
+def instantiate(qhyps, base, rounds=3):
     """Ground instances of the quantified hypotheses at the index terms of
     the formulas in `base` (and of the instances, for `rounds` rounds)."""
     insts = []
@@ -107,7 +107,7 @@ def instantiate(qhyps, base, rounds=2):
     for _ in range(rounds):
         new = []
         for q in qhyps:
-            for t in _index_terms(pool + insts, q.sort):
+            for t in _index_terms(insts[::-1] + pool, q.sort):
                 key = (id(q), t.get_id())
                 if key in seen:
                     continue
